@@ -1,4 +1,5 @@
 import inspect
+import json
 import re
 import uuid
 from datetime import date
@@ -576,7 +577,8 @@ class JSON(Term):
 
     @staticmethod
     def _get_str_sql(value: str, quote_char: str = '"', **kwargs: Any) -> str:
-        return format_quotes(value, quote_char)
+        # escape the content as a JSON string (RFC 8259: double quote, backslash, control characters)
+        return format_quotes(json.dumps(value, ensure_ascii=False)[1:-1], quote_char)
 
     def get_sql(self, secondary_quote_char: str = "'", **kwargs: Any) -> str:
         sql = format_quotes(self._recursive_get_sql(self.value), secondary_quote_char)
